@@ -69,3 +69,18 @@ Definition errors_of (ts : list tdecl) : list string :=
 
 Definition output_of (ts : list tdecl) (order : list nat) : list string :=
   flat_map (fun id => match nth_error ts id with Some t => t_defs t | None => [] end) order.
+
+(* ---------------------------------------------------------------- errors *)
+(* declsOrError: translating one declaration yields its definitions, or a
+   structured conversion error (a typed panic recovered per declaration), or a
+   foreign panic that is re-raised and aborts the process *)
+Inductive tres (X E : Type) := TOk (defs : list X) | TErr (e : E) | TCrash.
+Arguments TOk {X E}. Arguments TErr {X E}. Arguments TCrash {X E}.
+
+Definition is_crash {X E} (r : tres X E) : bool := match r with TCrash => true | _ => false end.
+Definition defs_of {X E} (r : tres X E) : list X := match r with TOk d => d | _ => [] end.
+Definition errs_of {X E} (r : tres X E) : list E := match r with TErr e => [e] | _ => [] end.
+
+(* the first loop of Decls over all declarations of all files: None = abort *)
+Definition translate_decls {X E} (rs : list (tres X E)) : option (list (list X) * list E) :=
+  if existsb is_crash rs then None else Some (map defs_of rs, flat_map errs_of rs).
